@@ -11,7 +11,7 @@ from vlib import hx, unhx
 LEVEL = "proof"
 
 
-def gen_case(rng, tag):
+def gen_case(rng, tag, rescale=None):
     nc = rng.randint(1, 12) if rng.random() < 0.8 else rng.randint(13, 30)
     cts = [tissue.cell_type(gid=g) for g in range(5)]
     cells = []
@@ -21,6 +21,8 @@ def gen_case(rng, tag):
                                         place=rng.choice([0, 1, 10]) * mag)
         if rng.random() < 0.5:
             n = [[-x for x in p] for p in n]; f = [(a, c, b) for a, b, c in f]      # mirrored: negative coordinates, still outward
+        if rescale is not None:
+            n = [[x * rescale for x in p] for p in n]
         cells.append((rng.randrange(5), n, f))
     pre = rng.choice([0, 0, 2, 6])
     d = os.path.join(vlib.CACHE, "tmp", "io_" + tag)
@@ -166,7 +168,16 @@ def run(ck):
     impl = vlib.build_driver("io")
     model = vlib.ocaml_model()
     rng = random.Random(ck.seed * 7477 + 16)
-    cases = [gen_case(rng, "c16_%d_%d" % (os.getpid(), i)) for i in range(ncase)]
+    cases = []
+    for i in range(ncase):
+        if i % 6 == 5:
+            # the same population again with other coordinates, right after it in the same process: same counts, same
+            # connectivity, different geometry (a reader or writer that keeps state between files confuses the two)
+            sd = rng.randrange(1 << 30)
+            cases.append(gen_case(random.Random(sd), "c16_%d_%da" % (os.getpid(), i)))
+            cases.append(gen_case(random.Random(sd), "c16_%d_%db" % (os.getpid(), i), rescale=rng.choice([1.37, -0.61, 3.0])))
+        else:
+            cases.append(gen_case(rng, "c16_%d_%d" % (os.getpid(), i)))
     outs, crashes = vlib.run_lines_resilient([impl], [c["line"] for c in cases], timeout=1200)
     for bad, info in crashes[:2]:
         ck.report(dict(input=cases[bad]["line"][:3000], error=info), oracle="driver_crash", what="i/o driver died: " + info[:200])
